@@ -29,27 +29,28 @@ build() {
     return 2
   fi
   rm -f "$ROOT/bin/build.$$.log"
+  # this invocation runs its own freshly built binary (BUILT); bin/svcsim is only a convenience copy
+  BUILT="$ROOT/bin/svcsim.run.$$"
+  cp -f "$tmp" "$BUILT"
   mv -f "$tmp" "$ROOT/bin/svcsim"
   return 0
 }
 cmd="${1:-}"
 case "$cmd" in
-  build) build; exit $? ;;
+  build) build; rc=$?; rm -f "${BUILT:-}"; exit $rc ;;
   replay)
     build || exit 2
-    exec "$ROOT/bin/svcsim" replay "${2:?trace file}" ;;
+    "$BUILT" replay "${2:?trace file}"; rc=$?; rm -f "$BUILT"; exit $rc ;;
   selftest-determinism)
     build || exit 2
     shift
-    exec "$ROOT/bin/svcsim" selftest-determinism "$@" ;;
+    "$BUILT" selftest-determinism "$@"; rc=$?; rm -f "$BUILT"; exit $rc ;;
   C[0-9][0-9])
     tier="${2:-${VERIF_TIER:-quick}}"
     build || exit 2
-    # private copy of the binary so that a concurrent rebuild cannot disturb this run
-    cp "$ROOT/bin/svcsim" "$ROOT/bin/svcsim.run.$$"
-    "$ROOT/bin/svcsim.run.$$" check "$cmd" "$tier"
+    "$BUILT" check "$cmd" "$tier"
     rc=$?
-    rm -f "$ROOT/bin/svcsim.run.$$"
+    rm -f "$BUILT"
     exit $rc ;;
   *) echo "usage: $0 <C01..C20> <quick|thorough> | replay <file> | build" >&2; exit 2 ;;
 esac
